@@ -1,4 +1,4 @@
-\* one plan, three callers racing (every interleaving of up to 5 calls), one crash, both recovery modes, aging
+\* one plan, three callers racing (every interleaving of up to 5 calls), one crash, both recovery modes, aging; no read faults (race3, race4 have them)
 SPECIFICATION Spec
 CONSTANTS
   Plans <- P1
@@ -10,7 +10,7 @@ CONSTANTS
   Aging = TRUE
   TwoStep = FALSE
   RecAging = TRUE
-  MaxFaults = 1
+  MaxFaults = 0
 VIEW view
 INVARIANTS TypeOK OneRunner RunnerRegistered NoPanic AtMostOnce StartOnce MutexInv WaitTruth StaleRejected IndexLags
 PROPERTIES StartedFromNS TerminalStable OnlyRunningResumed OnlyStaleClosed
